@@ -39,6 +39,37 @@ let arg_dec s = match fields s with
   | [n; c; e] -> { d_neg = arg_bool n; d_coef = arg_z c; d_exp = arg_z e }
   | _ -> failwith ("arg_dec " ^ s)
 
+(* nested lists inside one op: elements separated by ';', fields by '/', "-" = empty list *)
+let sub_list f s = if s = "-" then [] else List.map f (String.split_on_char ';' s)
+let sub_fields s = String.split_on_char '/' s
+let sub_txout s = match sub_fields s with
+  | [v; sc] -> { o_value = arg_z v; o_script = arg_bytes sc }
+  | _ -> failwith ("sub_txout " ^ s)
+let sub_unspent s = if s = "N" then None else Some (sub_txout s)
+let sub_txin s = match sub_fields s with
+  | [h; i; sc; sq] -> { i_hash = arg_bytes h; i_index = arg_z i; i_script = arg_bytes sc; i_sequence = arg_z sq }
+  | _ -> failwith ("sub_txin " ^ s)
+(* history operations *)
+let arg_op s = match fields s with
+  | ["OTI"] -> ObsTotalIn | ["OTO"] -> ObsTotalOut | ["OFEE"] -> ObsFee | ["OCB"] -> ObsIsCoinbase
+  | ["OVAL"; k] -> ObsValidate (arg_nat k)
+  | ["SU"; us] -> MutSetUnspents (sub_list sub_unspent us)
+  | ["FD"; k; im] -> MutUnspentsFromDb (arg_nat k, arg_bool im)
+  | ["AU"; us] -> MutAssignUnspents (sub_list sub_unspent us)
+  | ["EU"; i; v] -> MutEditUnspent (arg_nat i, arg_z v)
+  | ["PU"; u] -> MutAppendUnspent (sub_unspent u)
+  | ["CU"] -> MutClearUnspents
+  | ["AO"; os] -> MutAssignOuts (sub_list sub_txout os)
+  | ["EO"; i; v] -> MutEditOut (arg_nat i, arg_z v)
+  | ["PO"; o] -> MutAppendOut (sub_txout o)
+  | ["AI"; is] -> MutAssignIns (sub_list sub_txin is)
+  | ["DI"; fe] -> MutDistribute (arg_fee fe)
+  | _ -> failwith ("arg_op " ^ s)
+(* databases of a history: one list, each entry prefixed by the number of its database: i<k>:x<key>:x<hash>:<outs> *)
+let arg_dbsentry s = match fields s with
+  | [k; key; h; outs] -> (arg_int k, arg_dbentry (key ^ ":" ^ h ^ ":" ^ outs))
+  | _ -> failwith ("arg_dbsentry " ^ s)
+
 let show_txout o = "(" ^ show_z o.o_value ^ " " ^ show_bytes o.o_script ^ ")"
 let show_txin i = "(" ^ show_bytes i.i_hash ^ " " ^ show_z i.i_index ^ " " ^ show_bytes i.i_script ^ " " ^ show_z i.i_sequence ^ ")"
 let show_tx t =
@@ -52,6 +83,14 @@ let dispatch f args = match f, args with
   | "distribute", [v; ins; outs; lt; us; fe; bc] ->
     let n = arg_z bc in
     show_outcome (show_pair show_tx show_z) (distribute_from_split_pool (fun _ -> n) (arg_tx v ins outs lt us) (arg_fee fe))
+  | "distribute_st", [v; ins; outs; lt; us; fe; bc] ->
+    let n = arg_z bc in
+    show_pair (show_outcome show_z) show_tx (distribute_from_split_pool_st (fun _ -> n) (arg_tx v ins outs lt us) (arg_fee fe))
+  | "history", [v; ins; outs; lt; us; db; ops] ->
+    let entries = arg_list arg_dbsentry db in
+    let lookup k h = List.assoc_opt h (List.filter_map (fun (j, e) -> if j = int_of_nat k then Some e else None) entries) in
+    show_pair (show_list (show_outcome show_z)) show_tx
+      (run (fun _ -> Z0) fst snd lookup (arg_list arg_op ops) (arg_tx v ins outs lt us))
   | "create_tx", [sps; pays; fe; lt; ver; bc] ->
     let n = arg_z bc in
     show_outcome show_tx (create_tx (fun _ -> n) (arg_list arg_spendable sps) (arg_list arg_payable pays) (arg_fee fe) (arg_z lt) (arg_z ver))
